@@ -18,7 +18,7 @@ def sigfn(o, i, ev, v):
     tgt = i["tgt"]
     ent = None
     for e in lay["lay"]:
-        if e["n"] == tgt and e["x"] == 1:
+        if e["n"] == tgt and (e["x"] == 1 or e["k"] == "x"):
             ent = e
             break
     vt = "?"
@@ -93,9 +93,11 @@ def run(ctx):
             structural = set(f["n"] for f in l["fixes"]) | set(c03_disc(l))
             chosen = {}
             for e in l["lay"]:
-                if e["x"] != 1 or e["k"] == "cfg" or e["n"].startswith("_HP"):
+                # reserved flags are not exposed but are accepted as keywords (only those whose name is unique in the message)
+                hidden_flag = e["k"] == "x" and e["x"] == 0 and l["pbf"] and sum(1 for y in l["lay"] if y["n"] == e["n"]) == 1
+                if (e["x"] != 1 and not hidden_flag) or e["k"] == "cfg" or e["n"].startswith("_HP"):
                     continue
-                key = (e["k"], e["t"][:1] if e["k"] == "f" else "", e["sc"], "_" in e["n"], e["n"] in structural)
+                key = (e["k"], e["t"][:1] if e["k"] == "f" else "", e["sc"], "_" in e["n"], e["n"] in structural, hidden_flag)
                 if key not in chosen:
                     chosen[key] = e
             for e in chosen.values():
